@@ -18,12 +18,72 @@ pub open spec fn be32(s: Seq<u8>) -> u32 {
     ((s[0] as u32) * 16777216 + (s[1] as u32) * 65536 + (s[2] as u32) * 256 + (s[3] as u32)) as u32
 }
 
+/// One octet.
+#[verifier::opaque]
+pub open spec fn s1(b: u8) -> Seq<u8> {
+    seq![b]
+}
+
+#[verifier::opaque]
 pub open spec fn enc16(v: u16) -> Seq<u8> {
     seq![(v / 256) as u8, (v % 256) as u8]
 }
 
+#[verifier::opaque]
 pub open spec fn enc32(v: u32) -> Seq<u8> {
     seq![(v / 16777216) as u8, ((v / 65536) % 256) as u8, ((v / 256) % 256) as u8, (v % 256) as u8]
+}
+
+pub broadcast proof fn lemma_empty_add<A>(s: Seq<A>)
+    ensures #[trigger] (Seq::<A>::empty() + s) == s,
+{
+    assert((Seq::<A>::empty() + s) =~= s);
+}
+
+pub broadcast proof fn lemma_add_empty<A>(s: Seq<A>)
+    ensures #[trigger] (s + Seq::<A>::empty()) == s,
+{
+    assert((s + Seq::<A>::empty()) =~= s);
+}
+
+pub broadcast proof fn lemma_enc32_zero()
+    ensures #[trigger] enc32(0) == enc16(0) + enc16(0),
+{
+    reveal(enc16);
+    reveal(enc32);
+    assert(enc32(0) =~= enc16(0) + enc16(0));
+}
+
+pub broadcast proof fn lemma_s1_len(b: u8)
+    ensures (#[trigger] s1(b)).len() == 1,
+{
+    reveal(s1);
+}
+
+pub broadcast proof fn lemma_enc16_len(v: u16)
+    ensures (#[trigger] enc16(v)).len() == 2,
+{
+    reveal(enc16);
+}
+
+pub broadcast proof fn lemma_enc32_len(v: u32)
+    ensures (#[trigger] enc32(v)).len() == 4,
+{
+    reveal(enc32);
+}
+
+pub broadcast group group_ipp_seq {
+    lemma_empty_add,
+    lemma_add_empty,
+    lemma_enc32_zero,
+    lemma_s1_len,
+    lemma_enc16_len,
+    lemma_enc32_len,
+}
+
+pub broadcast group group_ipp_btree {
+    axiom_bt_order_set,
+    axiom_bt_iter,
 }
 
 // ------------------------------------------------------------------ bytes::Bytes / BytesMut
@@ -74,12 +134,77 @@ pub trait ExBuf {
 }
 
 
-// ------------------------------------------------------------------ slices
+#[verifier::external_trait_specification]
+pub trait ExBufMut {
+    type ExternalTraitSpecificationFor: bytes::BufMut;
 
-pub assume_specification<T>[ <[T]>::first ](s: &[T]) -> (r: Option<&T>)
+    fn put_u8(&mut self, n: u8)
+        ensures buf_seq(final(self)) == buf_seq(old(self)) + s1(n);
+
+    fn put_u16(&mut self, n: u16)
+        ensures buf_seq(final(self)) == buf_seq(old(self)) + enc16(n);
+
+    fn put_u32(&mut self, n: u32)
+        ensures buf_seq(final(self)) == buf_seq(old(self)) + enc32(n);
+
+    fn put_i32(&mut self, n: i32)
+        ensures buf_seq(final(self)) == buf_seq(old(self)) + enc32(n as u32);
+
+    fn put_slice(&mut self, src: &[u8])
+        ensures buf_seq(final(self)) == buf_seq(old(self)) + src@;
+}
+
+pub assume_specification<T: bytes::Buf>[ <bytes::BytesMut as bytes::BufMut>::put::<T> ](b: &mut bytes::BytesMut, src: T)
+    where bytes::BytesMut: Sized
+    ensures buf_seq(final(b)) == buf_seq(old(b)) + buf_seq(&src);
+
+pub assume_specification[ bytes::BytesMut::new ]() -> (r: bytes::BytesMut)
+    ensures buf_seq(&r) == Seq::<u8>::empty();
+
+pub assume_specification[ bytes::BytesMut::freeze ](b: bytes::BytesMut) -> (r: bytes::Bytes)
+    ensures buf_seq(&r) == buf_seq(&b);
+
+// ------------------------------------------------------------------ BTreeMap<String, _> order
+
+/// The key order in which a `BTreeMap<String, _>` with key set `d` is iterated (uninterpreted).
+pub uninterp spec fn bt_order(d: Set<String>) -> Seq<String>;
+
+/// A-btree-order-1: it enumerates the (finite) key set without repetition.
+pub broadcast axiom fn axiom_bt_order_set(d: Set<String>)
+    ensures (#[trigger] bt_order(d)).no_duplicates() && bt_order(d).to_set() == d;
+
+/// A-btree-order-2: a duplicate-free increasing sequence over the key set IS that order (sorted
+/// duplicate-free sequences over a total order are unique — true, assumed rather than proved).
+pub axiom fn axiom_bt_order_unique(d: Set<String>, s: Seq<String>)
+    requires s.no_duplicates(), s.to_set() == d, vstd::std_specs::btree::increasing_seq(s),
+    ensures s == bt_order(d);
+
+/// What vstd's `BTreeMap::iter` postcondition provides about the yielded pairs, restated.
+pub open spec fn bt_iter_facts<V>(m: Map<String, V>, r: Seq<(&String, &V)>) -> bool {
+    &&& r.len() == m.len()
+    &&& r.no_duplicates()
+    &&& forall|i: int| 0 <= i < r.len() ==> m.contains_key(*(#[trigger] r[i]).0) && m[*r[i].0] == *r[i].1
+    &&& vstd::std_specs::btree::increasing_seq(r.map_values(|p: (&String, &V)| *p.0))
+}
+
+/// A-btree-order-3 (consequence of A-btree-order-2; assumed, see DESIGN): the i-th yielded pair is
+/// the i-th key of `bt_order` with its value.
+pub broadcast axiom fn axiom_bt_iter<V>(m: Map<String, V>, r: Seq<(&String, &V)>)
+    requires #[trigger] bt_iter_facts(m, r),
     ensures
-        s@.len() == 0 ==> r is None,
-        s@.len() > 0 ==> r == Some(&s@[0]);
+        bt_order(m.dom()).len() == r.len(),
+        forall|i: int| 0 <= i < r.len() ==> *(#[trigger] r[i]).0 == bt_order(m.dom())[i];
+
+/// A-string-to_string: `String::to_string` (Display for String) returns an equal string.  vstd leaves
+/// `to_string_from_display_ensures` uninterpreted except for `str`.
+pub axiom fn axiom_to_string_string(s: &String, r: String)
+    ensures #[trigger] vstd::string::to_string_from_display_ensures::<String>(s, r) ==> r@ == s@;
+
+/// A-string-ord: `String` obeys vstd's comparison model (needed by vstd's BTreeMap specs).
+pub axiom fn axiom_string_obeys_cmp()
+    ensures vstd::laws_cmp::obeys_cmp::<String>();
+
+// ------------------------------------------------------------------ slices
 
 // ------------------------------------------------------------------ strings / UTF-8
 
